@@ -178,6 +178,18 @@ theorem oversample_only_scales {K R : Type} [Field R] [RealLike R] [Add K] [Mul 
   · simp only [dftAlpha, Gen.dftAlphaCall, Gen.dftAlpha, h1, mul_one]
     refine Prod.ext ?_ ?_ <;> simp only [div_div]
 
+/-- **Scale invariance.** Multiplying every length — input and output pixel scales, wavelength, focal length — by the same
+factor `k ≠ 0` leaves the sampling ratios unchanged: nothing in the propagation may depend on the absolute size of the
+physical units (metres, microns, nanometres). Each axis' ratio depends on that axis' pixel scales only. -/
+theorem alpha_scale_invariant {R : Type} [Field R] [RealLike R] (k dx0 dx1 du0 du1 wl z : R) (os : Int) (hk : k ≠ 0)
+    (dx0' du0' dx1' du1' : R) :
+    dftAlpha (k * dx0) (k * dx1) (k * du0) (k * du1) (k * wl) (k * z) os = dftAlpha dx0 dx1 du0 du1 wl z os ∧
+    (dftAlpha dx0' dx1 du0' du1 wl z os).2 = (dftAlpha dx0 dx1 du0 du1 wl z os).2 ∧
+    (dftAlpha dx0 dx1 du0 du1 wl z os).1 = (dftAlpha dx0 dx1' du0 du1' wl z os).1 := by
+  refine ⟨?_, rfl, rfl⟩
+  simp only [dftAlpha, Gen.dftAlphaCall, Gen.dftAlpha]
+  refine Prod.ext ?_ ?_ <;> simp only <;> field_simp
+
 /-! ## The value is the Fraunhofer sum (composition with C01 at `K = ℂ`, `R = ℝ`) -/
 
 /-- the model's point evaluation is the unitary Fraunhofer double sum over the field's samples, `X`, `Y` the global input
